@@ -62,7 +62,13 @@ fn exec_line(req: &str) -> String {
 
 fn main() {
     // keep panic messages off stderr: panics are observations here
-    std::panic::set_hook(Box::new(|_| {}));
+    // (set RLH_PANIC_MSG=1 to see them when investigating a replay by hand)
+    let show = std::env::var_os("RLH_PANIC_MSG").is_some();
+    std::panic::set_hook(Box::new(move |info| {
+        if show {
+            eprintln!("{info}");
+        }
+    }));
     let args: Vec<String> = std::env::args().collect();
     // the protocol streams are moved away from fd 0/1: the editor targets re-plumb those onto a pty
     use std::os::unix::io::FromRawFd;
